@@ -56,21 +56,25 @@ def sendNext (s : VState) (honesty : Option Nat) : VState :=
     | none => s
     | some c => { s with pending := s.pending ++ [(c, -1)] }
 
+/-- the part of on_challenge_response that handles the answer to the pending challenge (id, hc):
+    pop the pending cache, remove the challenge from the unanswered ones, count the answer / check honesty -/
+def afterAnswer (s : VState) (id r : Nat) (hc : Int) : VState :=
+  -- request_cache.pop("proving-hash", hash); if hash in hashed_challenges: remove it and the challenge
+  let s2 := { s with pending := s.pending.filter (fun e => e.1 != id), unanswered := s.unanswered.erase id }
+  if hc < 0 then { s2 with relmap := s2.relmap.bump r, log := s2.log ++ [(id, r)] }
+  else if (r : Int) ≠ hc then { s2 with liar := true, completions := s2.completions ++ [Rel.empty] }
+  else s2
+
+/-- "Completed" or "Send another proving hash" -/
+def finish (s : VState) (honesty : Option Nat) : VState :=
+  if s.unanswered.isEmpty then { s with completions := s.completions ++ [s.relmap] }
+  else sendNext s honesty
+
 /-- on_challenge_response -/
 def onResponse (s : VState) (id r : Nat) (honesty : Option Nat) : VState :=
   match s.pending.find? (fun e => e.1 == id) with
   | none => s
-  | some (_, hc) =>
-    -- request_cache.pop("proving-hash", hash)
-    let s1 := { s with pending := s.pending.filter (fun e => e.1 != id) }
-    -- if hash in hashed_challenges: remove it and the challenge
-    let s2 := { s1 with unanswered := s1.unanswered.erase id }
-    let s3 :=
-      if hc < 0 then { s2 with relmap := s2.relmap.bump r, log := s2.log ++ [(id, r)] }
-      else if (r : Int) ≠ hc then { s2 with liar := true, completions := s2.completions ++ [Rel.empty] }
-      else s2
-    if s3.unanswered.isEmpty then { s3 with completions := s3.completions ++ [s3.relmap] }
-    else sendNext s3 honesty
+  | some (_, hc) => finish (afterAnswer s id r hc) honesty
 
 /-- the PendingChallengeCache of `id` times out (it is only dropped) -/
 def onTimeout (s : VState) (id : Nat) : VState :=
